@@ -102,7 +102,7 @@ def replay_pack(rec, ctx, np, P):
         try:
             z, dr, dt = qpoly.compute_z_zprime_Q2d([float(v) for v in rec['cm0']], [[float(v) for v in r_] for r_ in rec['am']],
                                                    [[float(v) for v in r_] for r_ in rec['bm']], u.copy(), t)
-            if np.abs(z - want).max() > 1e-9 * (1 + np.abs(want).max()):
+            if core.maxabs(z - want) > 1e-9 * (1 + core.maxabs(want)):
                 fails.append(('compute_z_zprime_Q2d:sum:%s' % cls, 'theta=%g: z %s, explicit sum %s' % (th, np.round(z, 8).tolist(), np.round(want, 8).tolist())))
                 break
         except Exception as ex:
@@ -131,7 +131,7 @@ def replay_lstsq(rec, ctx, np, P):
                 mm = modes.reshape((len(c),) + shape) if form == '2-D' else modes
                 dd = data.reshape(shape) if form == '2-D' else data
                 got = np.asarray(P.lstsq(mm, dd), dtype=float)
-                if got.shape != c.shape or not np.allclose(got, c, rtol=0, atol=1e-9 * (1 + np.abs(c).max())):
+                if got.shape != c.shape or not np.allclose(got, c, rtol=0, atol=1e-9 * (1 + core.maxabs(c))):
                     fails.append(('lstsq:coefficients:%s' % ('masked' if inv else 'unmasked'), 'invalid=%s filled with %s (%s): got %s want %s' % (rec['inv'], bad, form, got.tolist(), c.tolist())))
             except Exception as ex:
                 fails.append(('lstsq:raised:%s' % ('masked' if inv else 'unmasked'), 'invalid=%s filled with %s: %s: %s' % (rec['inv'], bad, type(ex).__name__, ex)))
@@ -161,7 +161,7 @@ def replay_forbes_sums(T, ocon, ctx, np, P):
                          ('compute_z_zprime_Qbfs', lambda: qpoly.compute_z_zprime_Qbfs(c.copy(), u.copy(), u * u)[0])):
             try:
                 got = fn()
-                if np.abs(got - z).max() > 1e-9 * (1 + np.abs(z).max()):
+                if core.maxabs(got - z) > 1e-9 * (1 + core.maxabs(z)):
                     fails.append(('%s:%s' % (name, kind), 'got %s, explicit sum %s' % (np.round(got, 8).tolist(), np.round(z, 8).tolist())))
             except Exception as ex:
                 fails.append(('%s:raised:%s' % (name, kind), '%s: %s' % (type(ex).__name__, ex)))
@@ -169,7 +169,7 @@ def replay_forbes_sums(T, ocon, ctx, np, P):
             zc = sum(c[n] * np.array(ocon[n]['vals'])[inner] for n in range(len(c)))
             try:
                 got = qpoly.compute_z_zprime_Qcon(c.copy(), u.copy(), u * u)[0]
-                if np.abs(got - zc).max() > 1e-9 * (1 + np.abs(zc).max()):
+                if core.maxabs(got - zc) > 1e-9 * (1 + core.maxabs(zc)):
                     fails.append(('compute_z_zprime_Qcon:%s' % kind, 'got %s, explicit sum %s' % (np.round(got, 8).tolist(), np.round(zc, 8).tolist())))
             except Exception as ex:
                 fails.append(('compute_z_zprime_Qcon:raised:%s' % kind, '%s: %s' % (type(ex).__name__, ex)))
